@@ -534,7 +534,8 @@ func TestCompilesNames(t *testing.T) {
 		mc := modelCfg()
 		mc.NameStress = true
 		mc.CompatNames = optOn(opts, "compatible_names")
-		mc.NoNamespace = false // files sharing a package by accident must not collide after name conversion
+		mc.NoNamespace = false // files sharing a package must not collide after name conversion:
+		mc.SharedNS = false    // with stress names every file gets its own package
 		mc.InheritedCaseCollision = true
 		if vt.Known(prop, "inherited-function-case-collision") {
 			mc.InheritedCaseCollision = false
